@@ -100,6 +100,7 @@ class FnRec:
         self.props = []
         self.fingerprint = ''
         self.stats = {}
+        self.awaits = 0
 
 
 class Unit:
@@ -114,6 +115,7 @@ class Unit:
         self.mustfail = {}   # name -> hit?
         self.assumptions = []
         self.sources = {}
+        self.imports = []
 
     # -- helpers ----------------------------------------------------------
     def src(self, rel):
@@ -176,8 +178,24 @@ class Unit:
         return text
 
     # -- template processing ------------------------------------------------
+    @staticmethod
+    def load_lines(path, seen=None):
+        """Template lines with `//@ include <relpath>` expanded (relative to units/)."""
+        seen = seen or set()
+        if path in seen:
+            raise Undecided('include cycle: ' + path)
+        seen.add(path)
+        out = []
+        for ln in open(path).read().split('\n'):
+            m = re.match(r'\s*//@\s*include\s+(\S+)', ln)
+            if m:
+                out += Unit.load_lines(os.path.join(VERIF, 'units', m.group(1)), seen)
+            else:
+                out.append(ln)
+        return out
+
     def assemble(self):
-        tpl = open(self.path).read().split('\n')
+        tpl = self.load_lines(self.path)
         i = 0
         cur_file = None
         mustfail = None
@@ -219,6 +237,8 @@ class Unit:
                 rule, rest = arg.split(None, 1)
                 rx, repl = parse_bt(rest)
                 self.gsubs.append((rule, rx, repl))
+            elif cmd == 'usefn':
+                self.do_usefn(arg, cur_file)
             elif cmd in ('struct', 'enum', 'const', 'fn', 'block'):
                 j = i + 1
                 block = []
@@ -236,6 +256,36 @@ class Unit:
                 raise Undecided('template %s:%d unknown directive %s' % (self.path, i + 1, cmd))
             i += 1
         return '\n'.join(self.lines) + '\n'
+
+    def do_usefn(self, arg, cur_file):
+        """`//@ usefn <unit> <Type::fn>`: emit the function as an external_body stub
+        carrying exactly the contract under which <unit> verifies its real body."""
+        uname, fname = arg.split()[:2]
+        other = os.path.join(VERIF, 'units', uname + '.vx')
+        lines = self.load_lines(other)
+        file_ = None
+        i = 0
+        found = None
+        while i < len(lines):
+            d = re.match(r'\s*//@\s*(\S+)\s*(.*)$', lines[i])
+            if d and d.group(1) == 'file':
+                file_ = d.group(2).strip()
+            if d and d.group(1) == 'fn':
+                nm, opts = self.parse_opts(d.group(2).strip())
+                shown = (nm.rsplit('::', 1)[0] + '::' if '::' in nm else '') + opts.get('as', nm.rsplit('::', 1)[-1])
+                j = i + 1
+                block = []
+                while not re.match(r'\s*//@\s*end\s*$', lines[j]):
+                    block.append(lines[j])
+                    j += 1
+                if shown == fname:
+                    found = (d.group(2).strip(), block, opts.get('file', file_))
+                    break
+                i = j
+            i += 1
+        if not found:
+            raise Undecided('usefn: %s not found in unit %s' % (fname, uname))
+        self.do_fn(found[0], found[1], found[2], None, stub_from=uname)
 
     @staticmethod
     def parse_opts(arg):
@@ -280,7 +330,7 @@ class Unit:
                          lines_generated=len(f))
         self.fns.append(rec)
 
-    def do_fn(self, arg, block, cur_file, mustfail):
+    def do_fn(self, arg, block, cur_file, mustfail, stub_from=None):
         name, opts = self.parse_opts(arg)
         rel = opts.get('file', cur_file)
         s = self.src(rel)
@@ -294,13 +344,14 @@ class Unit:
             raise Undecided('anchor lost: %s' % e)
         rec = FnRec()
         emitted_name = opts.get('as', fn)
-        rec.name = (ty + '::' if ty else '') + emitted_name
+        rec.name = opts.get('id', (ty + '::' if ty else '') + emitted_name)
         rec.file = rel
         rec.src_line = line_of(s.text, loc['fn_kw'])
         rec.orig = s.text[loc['start']:loc['body_close'] + 1]
         # parse block
         props, implhdr, ret, sig, addparam = [], None, None, None, None
         attrs = []
+        awaits = None
         subs = []
         sections = []  # (kind, arg, lines)
         cur = None
@@ -314,6 +365,8 @@ class Unit:
                     implhdr = a
                 elif c == 'attr':
                     attrs.append(a)
+                elif c == 'awaits':
+                    awaits = int(a.split()[0])
                 elif c == 'ret':
                     ret = a
                 elif c == 'sig':
@@ -386,11 +439,27 @@ class Unit:
                     raise Undecided('anchor lost in %s: `%s` #%d not found' % (rec.name, rx, nth))
                 pos = ms[nth - 1].start() if kind == 'before' else ms[nth - 1].end()
                 inserts.append((pos, lines, kind))
+        fname = rec.name
+        hdr = implhdr if implhdr else ('impl %s' % ty if ty else None)
+        if stub_from:
+            self.emit('// ---- contract of %s, proved against its real body in unit %s ----' % (fname, stub_from))
+            if hdr:
+                self.emit(hdr + ' {')
+            self.emit('#[verifier::external_body]')
+            self.emit(sig_new.rstrip())
+            self.emit('\n'.join(l for l in spec_lines if not re.match(r'\s*//#', l)))
+            self.emit('{ unimplemented!() }')
+            if hdr:
+                self.emit('}')
+            self.imports.append('%s (contract proved in %s)' % (fname, stub_from))
+            return
+        n_await = len(re.findall(r'\.await\b', mask(body_text)))
+        if awaits is not None and awaits != n_await:
+            raise Undecided('%s: %d awaits in source but %d declared in the side-car (cancel points not covered)' % (rec.name, n_await, awaits))
+        rec.awaits = n_await
         rec.final = sig_new + body_new
         self.finish_rec(rec)
         # ---- emit
-        fname = rec.name
-        hdr = implhdr if implhdr else ('impl %s' % ty if ty else None)
         self.emit('// ---- extracted fn %s from %s:%d ----' % (fname, rel, rec.src_line))
         if hdr:
             self.emit(hdr + ' {')
